@@ -59,6 +59,14 @@ impl LyStr {
   }}
 }
 
+#[cfg(feature = "verif")]
+impl LyStr {
+  /// The address of the block backing this string
+  pub fn verif_addr(&self) -> usize {
+    self.0.ptr().as_ptr() as usize
+  }
+}
+
 impl Mark for LyStr {
   #[inline]
   fn mark(&self) -> bool {
